@@ -66,13 +66,17 @@ pub fn profile_for(prop: &str, variant: u64, thorough: bool) -> Profile {
     let mut p = base(prop);
     match prop {
         "C01" => {
-            p.kinds = [4, 3, 1, 3, 6, 1, 1, 4, if variant % 4 == 0 { 6 } else { 0 }];
+            p.kinds = if variant % 4 == 0 { [2, 1, 0, 1, 2, 0, 0, 1, 14] } else { [4, 3, 1, 3, 6, 1, 1, 4, 0] };
             p.max_sources = 4;
             p.outside = [14, 9, 3, 3, 3, 24, 26, 1, 0, 0, 3, 2, 0];
             p.incb = [6, 8, 4, 3, 3, 8, 0, 0, 0, 0, 1, 1, 0];
             p.p_cb_ops = 45;
             p.p_dead_sel = 20;
-            p.p_child_ret = 35;
+            p.p_child_ret = 50;
+            if variant % 4 == 0 {
+                p.outside = [10, 4, 2, 2, 2, 40, 30, 0, 0, 0, 1, 1, 0];
+                p.p_lifecycle = if variant == 0 { 30 } else { 0 };
+            }
         }
         "C02" => {
             p.kinds = [4, 3, 1, 4, 12, 2, 1, 3, 0];
